@@ -303,7 +303,7 @@ class FakeGraph:
             if kind == "url":
                 raise URLError("connection refused")
             if kind in ("badjson", "nonobj", "emptyobj"):
-                return FakeResponse(self.book, 200, f["body"].encode())
+                return FakeResponse(self.book, 200, f["body"].encode(f.get("enc", "utf-8")))
             if kind == "non2xx":
                 return FakeResponse(self.book, f["code"], f.get("body", "").encode())
             raise AssertionError(kind)
@@ -329,6 +329,10 @@ def gen_fault(rng, k, kind=None):
     if kind == "url":
         return {"k": k, "kind": kind}
     if kind == "badjson":
+        if rng.random() < 0.35:
+            # bytes that are not valid UTF-8: an undecoded gzip payload, a body cut inside a multi-byte character
+            return {"k": k, "kind": kind, "enc": "latin-1",
+                    "body": rng.choice(["\x1f\x8b\x08\x00\x00\x00", '{"value": [{"name": "caf\xc3', "\xff\xfe{\x00}\x00", '{"a": "\xe2\x82"}'])}
         return {"k": k, "kind": kind, "body": rng.choice(["", "<html>login</html>", '{"value": [', "{'a': 1}", "\ufeff{}x"])}
     if kind == "nonobj":
         return {"k": k, "kind": kind, "body": rng.choice(["[1, 2]", '"x"', "null", "5", "[]", "true"])}
@@ -554,7 +558,7 @@ def abs_fault(f):
     if f["kind"] == "url":
         return {"t": "url"}
     if f["kind"] in ("badjson", "nonobj", "emptyobj"):
-        return {"t": "resp", "status": 200, "body": abs_body(f["body"].encode())}
+        return {"t": "resp", "status": 200, "body": abs_body(f["body"].encode(f.get("enc", "utf-8")))}
     return {"t": "resp", "status": f["code"], "body": abs_body(f.get("body", "").encode())}
 
 
